@@ -553,4 +553,10 @@ theorem put_rollback_objects_fresh (h : C40.OHeap) (o : C40.MsgObj) (es : List C
     ∀ a ∈ (C40.MsgObj.fromState (C40.applyObjs es h o).1 (o.getState h)).2.refs, (C40.applyObjs es h o).1.next ≤ a :=
   (C40.fromState_fresh_roundtrip _ _).2.2.1
 
+
+/-! the string-field setters, transcribed (tied by the driver op `conv utf8` / `conv latin1`) -/
+example : utf8Ok (.str [0xD800, 120]) = false ∧ utf8Ok (.str [0xDCFF]) = true ∧ utf8Ok (.str [233, 0x65E5]) = true ∧ utf8Ok .null = true := by
+  decide
+example : latin1Ok (.str [233]) = true ∧ latin1Ok (.str [0x65E5]) = false ∧ latin1Ok (.str [0xD800]) = false ∧ latin1Ok .int = true := by decide
+
 end MitmVerif.Props.C47
